@@ -21,9 +21,34 @@ while len(cases) < N:
     for step in range(R2.randrange(1, 6)):
         view = impl_view(src.rebuild())
         names = sorted({n.split('.')[0] for n, _ in view}) + [R2.choice(IDS), 'zz%d' % step]
-        k = R2.choice(names); a = R2.choice(['get', 'set', 'set', 'del'])
+        k = R2.choice(names); a = R2.choice(['get', 'set', 'set', 'del', 'setin', 'setin', 'getin'])
         if not re.fullmatch(r"[A-Za-z_][A-Za-z0-9_']*", k): continue
-        stats[a] += 1
+        if a in ('setin', 'getin'):
+            from nix_manipulator.expressions.set import AttributeSet
+            try: outer = src[k]
+            except KeyError: continue
+            if not isinstance(outer, AttributeSet): continue
+            outers = [k]
+            while R2.random() < 0.6:                      # go deeper through set-valued bindings
+                subs = [b.name for b in outer.values if hasattr(b, 'name') and isinstance(b.value, AttributeSet) and re.fullmatch(r"[A-Za-z_][A-Za-z0-9_']*", b.name)]
+                if not subs: break
+                nxt = R2.choice(subs); outer = outer[nxt]; outers.append(nxt)
+            inner_names = [b.name for b in outer.values if hasattr(b, 'name')] + ['nn%d' % step]
+            k2 = R2.choice(inner_names)
+            if not re.fullmatch(r"[A-Za-z_][A-Za-z0-9_']*", k2): continue
+            stats[a] = stats.get(a, 0) + 1
+            qo = '[' + '; '.join(q(x) for x in outers) + ']'
+            if a == 'setin':
+                t = str(R2.randrange(1000, 2000)); outer[k2] = int(t); e = 'XOk'; o = 'MSetIn %s %s %s' % (qo, q(k2), q(t))
+            else:
+                try:
+                    val = outer[k2]
+                    e = 'XSet' if isinstance(val, AttributeSet) else 'XAtom %s' % q(' '.join(val.rebuild().split()) if hasattr(val, 'rebuild') else str(val))
+                except KeyError: e = 'XMissing'
+                o = 'MGetIn %s %s' % (qo, q(k2))
+            ops.append('(%s, %s, %s)' % (o, e, tree(impl_view(src.rebuild())))); plain.append([a] + outers + [k2])
+            continue
+        stats[a] = stats.get(a, 0) + 1
         if a == 'get':
             try:
                 val = src[k]
